@@ -8,6 +8,7 @@ for d in seeded/C*-*/; do
   id=$(basename "$d"); [ -f "$d/patch.diff" ] && [ -f "$d/meta.json" ] || continue
   P=${ALT[$id]:-${id%%-*}}
   harmless=$(python3 -c "import json;print(json.load(open('$d/meta.json')).get('harmless_on_repaired_tree',False))")
+  sup=$(python3 -c "import json;print(json.load(open('$d/meta.json')).get('superseded_by_repair',False))"); [ "$sup" = True ] && { echo "$id superseded by a repair (patch no longer applies)"; continue; }
   out=$(tools/try_mutant.sh "/verif/$d/patch.diff" "$P" quick 2>&1 | tail -1)
   code=$(echo "$out" | sed -n 's/.*exit=\([0-9]*\).*/\1/p')
   first=$(grep -m1 -E "^  oracle=" /verif/work/mutant.out | cut -c1-120)
